@@ -33,6 +33,9 @@ class SmootherBase(abc.ABC):
                     self.fixed.add(junction.index)
 
     def smooth(self, iterations: int = 5) -> None:
+        # the mesh/sketch could have been changed since this smoother was created (or last used)
+        self.grid.points[:] = self.get_positions()
+
         for _ in range(iterations):
             for junction in self.inner:
                 if junction.index in self.fixed:
@@ -44,6 +47,10 @@ class SmootherBase(abc.ABC):
         self.backport()
 
     @abc.abstractmethod
+    def get_positions(self):
+        """Current positions of mesh vertices/sketch points"""
+
+    @abc.abstractmethod
     def backport(self) -> None:
         """Copy results of smoothing back to the grid"""
 
@@ -53,6 +60,9 @@ class MeshSmoother(SmootherBase):
         self.mesh = mesh
 
         super().__init__(HexGrid.from_mesh(self.mesh))
+
+    def get_positions(self):
+        return [vertex.position for vertex in self.mesh.vertices]
 
     def backport(self):
         for i, point in enumerate(self.grid.points):
@@ -66,6 +76,9 @@ class SketchSmoother(SmootherBase):
         grid = QuadGrid.from_sketch(self.sketch)
 
         super().__init__(grid)
+
+    def get_positions(self):
+        return self.sketch.positions
 
     def backport(self):
         positions = self.grid.points
